@@ -17,7 +17,7 @@ def chunk(ty, payload, size=None):
 
 def frame(chunks, nbytes=None, dur=100):
     body = b''.join(chunks)
-    return struct.pack('<IHHHHI', nbytes if nbytes is not None else len(body) + 16, 0xF1FA, len(chunks), dur, 0, len(chunks)) + body
+    return struct.pack('<IHHHHI', nbytes if nbytes is not None else len(body) + 16, 0xF1FA, min(len(chunks), 0xFFFF), dur, 0, len(chunks)) + body
 
 
 def s(txt):
@@ -93,6 +93,7 @@ CASES['D14_take_bytes_declared_huge'] = header(1) + frame([layer(), cel_raw(0, 2
 CASES['D15_chunk_declared_huge'] = header(1) + struct.pack('<IHHHHI', 0x40000010, 0xF1FA, 1, 100, 0, 1) + struct.pack('<IH', 0x40000000, 0x2004) + b'\0' * 16
 CASES['D16_external_files_count'] = header(1) + frame([ext_files(0x01000000)])
 CASES['D17_cel_layer_65535'] = header(40) + b''.join(frame([chunk(0x2005, struct.pack('<HhhBH', 65535, 0, 0, 255, 1) + b'\0' * 7 + struct.pack('<H', 0))]) for _ in range(40))
+CASES['D19_more_than_65536_layers'] = header(1) + frame([layer(name='x')] * 66001 + [cel_raw(464, 4, 4, RGBA16)])
 CASES['ok_tilemap'] = header(1, w=4, h=4) + frame([tileset(0, 2, 2, 2, bytes([9, 9, 9, 255]) * 8), layer(ty=2, tileset=0), cel_tilemap(0, 2, 2, [0, 1, 1, 0])])
 CASES['ok_link'] = header(2) + frame([layer(), cel_raw(0, 4, 4, RGBA16)]) + frame([cel_link(0, 0)])
 CASES['ok_groups'] = header(1) + frame([layer(ty=1, level=0, name='g'), layer(level=1), layer(ty=1, level=1, name='g2'), layer(level=2), layer(level=0), cel_raw(1, 4, 4, RGBA16)])
